@@ -11,13 +11,18 @@
               (`PairsCovered` for the pairs of edges ENDING in a common vertex — the pairs whose wedge test
               the walk must reach: they are listed in two cells with intersecting ranges.  For properly
               crossing pairs the hypothesis is not evaluated separately: a missed crossing shows up as
-              walk-contains / walk-intersects / walk-boundary)
+              walk-contains / walk-intersects / walk-boundary);
+              or a hypothesis of the theorems of S2Proofs.Properties.C07_WalkSound fails:  hyp-edges:<pair>
+              (`EdgesOK`)  hyp-centre-contains:<pair> / hyp-centre-intersects:<pair> (`CenterSound`: a centre
+              shortcut can fire on the two indexes but the exact relation does not have the value the walk then
+              returns)  hyp-rects:<pair> (`RectsExact`: Go's rectangle booleans are exact shortcuts)
 
   Token formats: see harness/c07walk.go.
 -/
 import Oracle.Basic
 import Oracle.C07
 import S2.RelateWalk
+import S2.RelateWalkHyps
 namespace Oracle.C07Walk
 open Oracle S2 S2.Exact S2.Relate S2.RelateWalk Oracle.C07
 
@@ -144,6 +149,19 @@ def evalPair (G : Geo IV3) (tag : String) (X Y : Side) (s : Scan) (pXY pYX : Pai
       -- shared vertex A[i] = B[j]: the edges ENDING there are i-1 and j-1
       pairCovered X.I Y.I ((i + X.L.numEdges - 1) % X.L.numEdges) ((j + Y.L.numEdges - 1) % Y.L.numEdges))
   let fails := fails ++ (if covered then [] else ["hyp-covered:" ++ tag])
+  -- the further hypotheses of the theorems of S2Proofs.Properties.C07_WalkSound, evaluated on the dump
+  -- (`edgesOKB_iff`, `centerFiresB_iff`, `rectsExactB_iff` tie these Bool forms to the hypotheses):
+  -- `EdgesOK` both loops
+  let edgesOK := edgesOKB X.L.numEdges X.I && edgesOKB Y.L.numEdges Y.I
+  let fails := fails ++ (if edgesOK then [] else ["hyp-edges:" ++ tag])
+  -- `CenterSound` (the one unproved, Jordan-type hypothesis) where the theorems use it: `Contains` walks
+  -- only past its rectangle test and the empty / full cases, `Intersects` only past its rectangle test
+  let centreC := special || !R.aSubContainsB || !centerFiresB .contains X.I Y.I || !containsWith G s X.L Y.L
+  let centreI := !R.boundsIntersect || !centerFiresB .intersects X.I Y.I || intersectsWith G s X.L Y.L
+  let fails := fails ++ (if centreC then [] else ["hyp-centre-contains:" ++ tag]) ++
+    (if centreI then [] else ["hyp-centre-intersects:" ++ tag])
+  -- `RectsExact`: Go's rectangle booleans are exact shortcuts
+  let fails := fails ++ (if rectsExactB G s R X.L Y.L then [] else ["hyp-rects:" ++ tag])
   pure (model, fails)
 
 def handleWalk (a b : String) (res : List String) : Option String := do
